@@ -267,6 +267,25 @@ def main(prop, body):
                 if seen[k] <= 3: print('VIOLATION property=%s replay=%s   # %s %s' % (prop, v['replay'], v['api'], v['symptom']))
             return 1
         return 2
+    if a.replay:
+        # --replay <file>: re-run this property's check on the current tree (same tier/seed as recorded) and report whether the
+        # recorded violation (entry point, symptom, recorded event fields) is reproduced: exit 1 if it is, 0 if it is gone
+        try:
+            rec = json.load(open(a.replay))
+            ctx.tier = rec.get('tier', ctx.tier); ctx.seed = int(rec.get('seed', ctx.seed))
+            ctx.rnd = random.Random(ctx.seed * 1000003 + int(hashlib.sha1(prop.encode()).hexdigest()[:8], 16))
+        except (OSError, ValueError) as e:
+            print('MACHINERY-FAILURE property=%s: cannot read replay file: %s' % (prop, e)); return 2
+        print('REPLAY %s: %s %s %s' % (a.replay, rec.get('api'), rec.get('symptom'), json.dumps(rec.get('attrs'), sort_keys=True)[:300]))
+        try:
+            body(ctx)
+        except Exception as e:
+            print('MACHINERY-FAILURE property=%s: %s' % (prop, str(e)[:500]))
+            if not ctx.violations: return 2
+        hit = [v for v in ctx.violations if v['api'] == rec.get('api') and v['symptom'] == rec.get('symptom') and v['attrs'] == rec.get('attrs')]
+        print('REPLAY result: %s' % ('REPRODUCED (%d occurrence(s))' % len(hit) if hit else 'not reproduced on this tree'))
+        if hit: print('VIOLATION property=%s replay=%s' % (prop, hit[0]['replay']))
+        return 1 if hit else 0
     try:
         rc = body(ctx)
     except Machinery as e:
